@@ -30,6 +30,7 @@ def main():
     ap.add_argument("prop")
     ap.add_argument("--src", default=None)
     ap.add_argument("--no-verify", action="store_true")
+    ap.add_argument("--verify-only", action="store_true", help="confirm the seed in a scratch worktree only; do not touch /repo")
     ap.add_argument("--tier", default="quick")
     ap.add_argument("--extra-props", default="", help="comma separated: also run these properties' checks")
     args = ap.parse_args()
@@ -61,6 +62,10 @@ def main():
                                 "ok": rc0 == 0 and rc1 != 0 and rct == 0}
         finally:
             sh(["git", "-C", "/repo", "worktree", "remove", "--force", wt])
+    if args.verify_only:
+        json.dump(meta, open(meta_p, "w"), indent=1)
+        print(json.dumps({"seed": args.seed_id, "verified": meta.get("verified")}))
+        return 0
     # run the registered check(s) against /repo with the patch applied, then undo straight away
     results = {}
     rc, out = sh(["git", "-C", "/repo", "status", "--porcelain"])
